@@ -43,6 +43,7 @@ CONSTANTS
   PolicyTabs,    \* subset of {1,2}: policy tables ChangePolicy may select
   AuthzTabs,     \* subset of {0,1,2}: authorizer tables (0 = no Authorizer)
   InitAuthz,     \* subset of AuthzTabs: initial table
+  InitPtab,      \* subset of PolicyTabs: initial policy table
   Users,         \* identities an honest client can prove, subset of {"alice","bob"}
   Permissive,
   Bug
@@ -52,7 +53,7 @@ RawCmds   == {"X"}                 \* registered with Server.HandleRaw
 OtherCmds == {"U"}                 \* not registered
 AllCmds   == AuthCmds \cup RawCmds \cup OtherCmds
 Kinds     == {"honest", "skipsKeyAgreement", "noCipher", "unauthenticated"}
-Wants     == {"weak", "strong"}
+Wants     == {"weak", "prefer", "strong"}   \* the client's own levels: OPTIONAL / PREFERRED / REQUIRED
 None      == "none"
 Anon      == "anon"                \* identity of an unauthenticated session
 
@@ -115,7 +116,7 @@ Idle(st) == [st |-> st, via |-> "none", kind |-> "none", neg |-> NoNeg,
              pending |-> None, ncmds |-> 0]
 
 Init ==
-  /\ ptab = 1
+  /\ ptab \in InitPtab
   /\ atab \in InitAuthz
   /\ sessions = << >>
   /\ conn = Idle("none")
@@ -152,9 +153,8 @@ Lacks(cmd, n) ==
 (* handshake outcomes                                                        *)
 
 ClientLevels(kind, want) ==
-  [auth |-> IF kind = "unauthenticated" THEN "OPTIONAL"
-            ELSE IF want = "strong" THEN "REQUIRED" ELSE "OPTIONAL",
-   enc  |-> IF want = "strong" THEN "REQUIRED" ELSE "OPTIONAL"]
+  LET lvl == CASE want = "strong" -> "REQUIRED" [] want = "prefer" -> "PREFERRED" [] OTHER -> "OPTIONAL" IN
+  [auth |-> IF kind = "unauthenticated" THEN "OPTIONAL" ELSE lvl, enc |-> lvl]
 
 \* negotiateSecurity: "fail" | "yes" | "no"
 Decide(s, c, common) ==
@@ -179,13 +179,19 @@ Ideal(cmd, kind, want) ==
       a  == Decide(p.auth, cl.auth, kind # "unauthenticated")
       e  == Decide(p.enc, cl.enc, kind # "noCipher")
       keyless == kind \in {"skipsKeyAgreement", "noCipher"}
+      \* protection is DEMANDED by an end whose own policy says REQUIRED; a session
+      \* that was merely going to be encrypted (PREFERRED) goes on in plaintext -
+      \* and must then be REPORTED as plaintext
+      demanded == p.enc = "REQUIRED" \/ p.integ = "REQUIRED" \/ cl.enc = "REQUIRED"
   IN IF a = "fail" \/ e = "fail" THEN Failed
      ELSE IF keyless
-          THEN IF e = "yes" \/ p.integ = "REQUIRED"     \* protection demanded, no key: refuse
+          THEN IF demanded
                THEN IF "TrustReportedEnc" \in Bug /\ e = "yes"
                     THEN Out(TRUE, a = "yes", FALSE, a = "yes", TRUE)   \* the pinned tree's code
                     ELSE Failed
-               ELSE Out(TRUE, a = "yes", FALSE, a = "yes", FALSE)
+               ELSE IF "FlagNotResetWithoutKey" \in Bug /\ e = "yes"
+                    THEN Out(TRUE, a = "yes", FALSE, a = "yes", TRUE)
+                    ELSE Out(TRUE, a = "yes", FALSE, a = "yes", FALSE)
           ELSE Out(TRUE, a = "yes", TRUE, a = "yes", TRUE)
 
 \* everything that is physically possible for the client kind: an
@@ -199,8 +205,18 @@ Possible(kind) ==
   \cup (IF "TrustReportedEnc" \in Bug /\ kind = "skipsKeyAgreement"
         THEN { Out(TRUE, a, FALSE, a, TRUE) : a \in BOOLEAN } ELSE {})
 
+\* Bug "FlagNotResetWithoutKey": a handshake that was going to encrypt
+\* (PREFERRED) but ends without a key goes on in plaintext - correctly, nothing
+\* demanded protection - yet keeps REPORTING Encryption = TRUE.  The first
+\* command is safe (a policy that demands protection refuses the key-less
+\* handshake); a kept-alive follow-on with a stricter policy is not.
+StaleFlag(cmd, kind) ==
+  IF "FlagNotResetWithoutKey" \in Bug /\ kind \in {"skipsKeyAgreement", "noCipher"}
+     /\ Policy(ptab)[cmd].enc # "REQUIRED" /\ Policy(ptab)[cmd].integ # "REQUIRED"
+  THEN { Out(TRUE, a, FALSE, a, TRUE) : a \in BOOLEAN } ELSE {}
+
 NegOutcomes(cmd, kind, want) ==
-  IF Permissive THEN Possible(kind) ELSE {Ideal(cmd, kind, want)}
+  IF Permissive THEN Possible(kind) \cup StaleFlag(cmd, kind) ELSE {Ideal(cmd, kind, want)}
 
 -----------------------------------------------------------------------------
 (* connections                                                               *)
@@ -272,7 +288,7 @@ FollowOn(cmd) ==
 Guard(cmd) ==
   LET n   == conn.neg
       p   == Policy(ptab)[cmd]
-      es  == IF "TrustReportedEnc" \in Bug THEN n.encFlag ELSE n.encReal
+      es  == IF Bug \cap {"TrustReportedEnc", "FlagNotResetWithoutKey"} # {} THEN n.encFlag ELSE n.encReal
       ni  == p.integ = "REQUIRED" /\ "IntegrityForgotten" \notin Bug
       lvl == /\ (p.auth = "REQUIRED" => n.authReal)
              /\ ((p.enc = "REQUIRED" \/ ni) => es)
